@@ -6,7 +6,7 @@
     holds. *)
 From LP Require Import Proofs.Tactics Proofs.LedgerBase Proofs.Loop Proofs.Shuffle Proofs.Gates Proofs.Frames Proofs.Filter
   Proofs.Alloc Proofs.Confirm Proofs.Settle Proofs.Ledger Proofs.Stage Proofs.Resume Proofs.FisherYates Proofs.Rng
-  Proofs.ClaimLedger Proofs.Partition Proofs.Lifecycle Proofs.Setup.
+  Proofs.ClaimLedger Proofs.Partition Proofs.Lifecycle Proofs.Setup Proofs.CoverSteps.
 Open Scope N_scope.
 
 Definition lpside (s : state) := (lp_token s, tpt s, pay_token s, deposited s, total_deposited s, nr_winning s).
@@ -202,5 +202,43 @@ Proof.
   { rewrite Hlp, Htpt, Hb2, Hb1, Hbal. exact Hd. }
   split; [exact Hci|]. split; [|split; [rewrite Hpt, Hlp; exact Htok|exact Hb]].
   unfold CoverInv. rewrite Hb, Hn2. nia.
+Qed.
+
+(** ... and to the end: any order of winners' claims and owner withdrawals afterwards keeps both
+    ledgers; after the owner's (first) withdrawal the balance is exactly tokens-per-ticket x the winning
+    tickets not yet claimed, zero when they all are.  [locked]: launchpad-locked-tokens, whose claims
+    also need a lock contract other than the launchpad itself (not enforced at deployment). *)
+Theorem deployed_cover_to_end v w0 lf wf ef bf w1 ls ws es bs w2 sd rest w3 :
+  plain v -> setup_reach H v w0 -> deposited (st w0) = true ->
+  let locked := match v with Lock => true | _ => false end in
+  (locked = true -> lock_ok w0) ->
+  after_interrupted filter_tickets lf w0 = Some wf -> filter_tickets ef bf wf = Ok (w1, 0) ->
+  seeds w1 = sd :: rest ->
+  after_interrupted (select_winners H) ls w1 = Some ws -> select_winners H es bs ws = Ok (w2, 0) ->
+  csteps locked w2 w3 ->
+  exists l : list (N * N),
+    CInvs locked w3 (map fst l) /\
+    (forall e w3' w4, caller e <> sc_addr -> claim_ticket_payment e w3 = Ok w3' -> csteps locked w3' w4 ->
+       CInvs locked w4 (map fst l) /\ bal w4 sc_addr (lp_token (st w4)) 0 = tpt (st w4) * nr_winning (st w4) /\
+       (nr_winning (st w4) = 0 -> bal w4 sc_addr (lp_token (st w4)) 0 = 0)).
+Proof.
+  intros Hv Hr Hdep locked Hlock Haf Ef Hs Has Es Hsteps.
+  destruct (deployed_cover v w0 lf wf ef bf w1 ls ws es bs w2 sd rest Hv Hr Hdep Haf Ef Hs Has Es) as (l & Hci & Hcov & Htok & _).
+  exists l.
+  assert (Hlk2 : locked = true -> lock_ok w2).
+  { intros Hx. destruct (Hlock Hx) as (A1 & A2 & A3).
+    destruct (setup_reach_Pre H v w0 Hv Hr) as [l0 [Hsel _ _]].
+    pose proof Hsel as [Hop0 _ _ _ _ _ _ _].
+    assert (Hfok : filter_op_ok (st w0)) by (unfold filter_op_ok; rewrite Hop0; exact I).
+    rewrite (filter_multi_resume lf w0 wf ef bf Hfok Haf) in Ef.
+    destruct (filter_tickets_only _ _ _ _ Ef) as ((rg & ba & nw & la & fs & Hs1) & Hb1).
+    rewrite (select_multi_resume H ls w1 ws es bs Has) in Es.
+    assert (Hop1 : op (st w1) = OpNone) by (rewrite Hs1; reflexivity).
+    destruct (select_winners_only H _ _ _ _ Hop1 Es) as ((f2 & g2 & Hs2) & Hb2).
+    unfold lock_ok. rewrite Hs2, Hs1. cbn. auto. }
+  assert (Hc2 : CInvs locked w2 (map fst l)) by (unfold CInvs; auto).
+  destruct (Cover_steps locked w2 w3 _ Hc2 Hsteps) as [Hc3 _].
+  split; [exact Hc3|].
+  intros e w3' w4 Hne Eo Hs4. eapply Cover_after_owner; eauto.
 Qed.
 End HSetupCover.
